@@ -119,6 +119,16 @@ def run(e: Engine, rep: Report):
              'in-memory store) strikes the settled recipients off that very '
              'list, and the positions then select other people')
     b17(e, rep)
+    rep.rule('B18', 'the catch-all arm of Queue._attempt - which files the '
+             'whole, unmodified envelope for another attempt - belongs to a '
+             'try that covers the relay call only: no method that records '
+             'the outcome (bounce, removal, retry, settled marks) is '
+             'reachable from the try body (a bounce that cannot be enqueued '
+             'or a store that raises once would otherwise send recipients '
+             'that were already bounced through delivery and bounce again)')
+    common.attempt_try_scope(
+        e, rep, 'B18', 'a recipient bounced in this round is attempted, '
+        'fails and is bounced a second time')
 
 
 def b5(e: Engine, rep: Report):
